@@ -38,7 +38,7 @@ CONFIG = {
     "assumptions": [
         "the model is the code only as far as the correspondence run shows",
         "C01_required_sem_partial covers the whole fragment generated here; its guard (no SOut in the strict reading "
-        "of the specification) excludes exactly the 'unspecified' answers of the reference and the findings F12a / F29",
+        "of the specification) excludes exactly the 'unspecified' answers of the reference and the finding F12a",
     ],
 }
 
@@ -241,9 +241,7 @@ def ref_sem(segs, x, tl=True):
         raise Unspecified("segment after a slice result")
     if ty is T.MATCH_ALL:
         # every immediate child; with a following segment, those on which it selects
-        if rest and is_setx(x) and len(x):
-            SETSTAR[0] = True
-        sel = children(x)
+        sel = children(x)      # sets included (finding F29 is repaired: no flag any more)
     elif ty is T.TRAVERSE:
         if not rest:
             return leaves(x)
@@ -503,16 +501,7 @@ def f_multi_descendant(case, obs):
     return bool(fs) and all(k is not None for _, _, k in fs) and any(k == "multi" for _, _, k in fs)
 
 
-def f_wildcard_filter_on_set(case, obs):
-    """`*` followed by another segment, applied to a set: the code yields nothing, the documented meaning keeps the
-    members on which the following segment selects (every failure of the case is explained by a listed finding,
-    at least one by this one)"""
-    fs = failures(case, obs)
-    return bool(fs) and all(k is not None for _, _, k in fs) and any(k == "setstar" for _, _, k in fs)
-
-
-FINDING_PREDS = {"optional_stops_at_null": f10_optional_stops_at_null, "multi_descendant_search": f_multi_descendant,
-                 "wildcard_filter_on_set": f_wildcard_filter_on_set}
+FINDING_PREDS = {"optional_stops_at_null": f10_optional_stops_at_null, "multi_descendant_search": f_multi_descendant}
 
 
 def classify(case, obs):
